@@ -60,6 +60,7 @@ type ExecResult struct {
 	MaxParked     int
 	ParkedSets    int
 	Ties          int
+	Zombies       int
 	FaultsFired   map[string]int
 	OpCount       map[string]int
 	CancelledAt   int  // number of released calls when the cancel was delivered (-1: none)
@@ -200,6 +201,7 @@ func (e *Env) Exec(tape *Tape, reqs []*Request, plan ExecPlan) *ExecResult {
 	res.MaxParked = s.MaxParked
 	res.ParkedSets = len(s.ParkedSets)
 	res.Ties = s.Ties
+	res.Zombies = s.Zombies
 	res.FaultsFired = s.FaultsFired
 	res.OpCount = s.OpCount
 	return res
